@@ -537,3 +537,5 @@ def _moving_window(case: dict[str, Any], accepted: list[Any], rec: Any, align: d
 
 
 FINDINGS: dict[str, Any] = {}
+
+LEVEL_NOTE += ' Rounds 13-14: alignment point two thousand years before the data, updates microseconds off the half-period point.'
